@@ -7,8 +7,42 @@
    This file contains only statements closed by `exact`, their assumptions and non-vacuity examples.
    Generated once by tools/genprops.py from the proved lemmas (statements restated verbatim). *)
 From Coq Require Import List NArith ZArith Bool Lia.
-From Viv Require Import Base.Assoc Base.Tree Model.Paths Model.Wire Proofs.Paths_proofs Proofs.Wire_proofs Proofs.Wire15_proofs Model.CompState Proofs.WireStar_proofs Proofs.CompState_proofs.
+From Viv Require Import Base.Assoc Base.Tree Model.Paths Model.Wire Proofs.Paths_proofs Proofs.Wire_proofs Proofs.Wire15_proofs Model.CompState Proofs.WireStar_proofs Proofs.CompState_proofs Proofs.Generate_proofs.
 Import ListNotations.
+
+(* AFTER THE STORE IS BUILT, EVERY VARIABLE DECLARED BY ANY PROCESS EXISTS AT THE NODE ITS PORT IS WIRED TO AND HOLDS THE VALUE GIVEN FOR THAT NODE IN THE INITIAL STATE IF THERE IS ONE, AND A DECLARED DEFAULT OTHERWISE (THE declared default when the declarations agree) - for every plain composite (any number of processes at any parents, named ports of variables wired by downward tuple paths, no declared variable above another), every initial state and every declared variable *)
+Theorem C15_generate_declares :
+  forall (ps : list proc) (init : tree Z) (t : store) (g : globs) 
+           (p : proc) (a : list key) (d : vdecl),
+         Forall plain_proc ps ->
+         prefix_free ps ->
+         wf init ->
+         generate ps init = Ok (t, g) ->
+         In p ps ->
+         declares p a d ->
+         exists l : lf,
+           leaf_at t a = Some l /\
+           (forall z : Z, get_in init a = Ok (Some (Lf z)) -> l_val l = Some z) /\
+           (get_in init a = Ok None -> l_val l = l_def l) /\
+           (forall x : Z,
+            l_def l = Some x ->
+            exists (p' : proc) (d' : vdecl), In p' ps /\ declares p' a d' /\ dd d' = Some x) /\
+           (forall x : Z,
+            (forall (p' : proc) (d' : vdecl), In p' ps -> declares p' a d' -> dd d' = Some x) ->
+            l_def l = Some x).
+Proof. exact @generate_declares. Qed.
+Print Assumptions C15_generate_declares.
+
+(* and nothing else becomes a variable: every leaf of the built store is a variable some process declares *)
+Theorem C15_generate_only_declared :
+  forall (ps : list proc) (init : tree Z) (t : store) (g : globs) (a : list key) (l : lf),
+         Forall plain_proc ps ->
+         prefix_free ps ->
+         wf init ->
+         generate ps init = Ok (t, g) ->
+         leaf_at t a = Some l -> exists (p : proc) (d : vdecl), In p ps /\ declares p a d.
+Proof. exact @generate_only_declared. Qed.
+Print Assumptions C15_generate_only_declared.
 
 (* declarations by several processes: different _value for one variable is an error *)
 Theorem C15_merge_leaf_value_conflict :
